@@ -303,3 +303,19 @@ mod tests {
         }
     }
 }
+
+/// Verification hooks (compiled only with `--cfg scrut_verif`): forwarding wrappers that expose
+/// crate-private leaf functions to the external harness crates. No behaviour of its own.
+#[cfg(scrut_verif)]
+pub mod verif_hooks {
+    pub fn split_at_newline(text: &[u8]) -> Vec<&[u8]> {
+        super::split_at_newline(text)
+    }
+
+    pub fn trim_newlines_bytes(text: &[u8]) -> &[u8] {
+        use super::BytesNewline;
+        let text: &[u8] = text;
+        let trimmed = (&text).trim_newlines();
+        &text[0..trimmed.len()]
+    }
+}
